@@ -198,27 +198,29 @@ def findName (u : Uni) (key : Str) : List (Int × Str) → Option Int
   | [] => none
   | (k, name) :: rest => if equalFold u name key then some k else findName u key rest
 
+/-- `MatchString` after `strings.Split(tgt, "+")`: `vals` are the fields. -/
+def matchFields (u : Uni) (k : Key) (vals : List Str) : Bool :=
+  let mods := vals.dropLast
+  let key := vals.getLastD []
+  -- the key is '+' itself ("Ctrl++"): the last two fields are empty
+  let plus : Bool := key = [] ∧ vals.length > 2 ∧ mods.getLastD [0] = []
+  let mods := if plus then mods.dropLast else mods
+  let key := if plus then [43] else key
+  let mask := parseMods u mods
+  match key with
+  | [] => «matches» u k 0xFFFD mask      -- DecodeRuneInString("") = (RuneError, 0) and 0 == len("")
+  | [r] => «matches» u k r mask
+  | r :: _ =>
+    match findName u key keyNames with
+    | some kn => «matches» u k kn mask
+    | none => «matches» u k r mask
+
 /-- `Key.MatchString(tgt)`; `tgt` is valid UTF-8 given as code points. -/
 def matchString (u : Uni) (k : Key) (tgt : Str) : Bool :=
   match tgt with
   | [] => false
   | [r] => «matches» u k r 0
-  | _ =>
-    let vals := splitOn 43 tgt
-    let mods := vals.dropLast
-    let key := vals.getLastD []
-    -- the key is '+' itself ("Ctrl++"): the last two fields are empty
-    let plus : Bool := key = [] ∧ vals.length > 2 ∧ mods.getLastD [0] = []
-    let mods := if plus then mods.dropLast else mods
-    let key := if plus then [43] else key
-    let mask := parseMods u mods
-    match key with
-    | [] => «matches» u k 0xFFFD mask      -- DecodeRuneInString("") = (RuneError, 0) and 0 == len("")
-    | [r] => «matches» u k r mask
-    | r :: _ =>
-      match findName u key keyNames with
-      | some kn => «matches» u k kn mask
-      | none => «matches» u k r mask
+  | _ => matchFields u k (splitOn 43 tgt)
 
 def findKeyName (kc : Int) : List (Int × Str) → Str
   | [] => []
